@@ -31,6 +31,13 @@ def force(binary, steps):
         vlib.rmtree(d)
 
 
+def _force2(binary, steps):
+    try:
+        return force(binary, steps)
+    except vlib.DriverDead as e:
+        return e
+
+
 def run(chk, binary):
     beh, r = vlib.tlc_generate("Gen_QueryLifecycle", "Gen_QueryLifecycle.cfg", timeout=600)
     chk.add_tlc("Gen_QueryLifecycle", r, "schedule generation: one query, MAXRUN=1, one client cancel, no timer")
@@ -83,6 +90,43 @@ def run(chk, binary):
         if len(chk.cov["samples"]) < 4 and "cancel" in s:
             chk.sample({"kind": "forced-schedule", **rep})
     chk.cov["forced_schedules"] = {"schedules": len(scheds), "fully_forced": feasible}
+    # ---- two queries racing for one admission slot: every order of (enq q1, enq q2) against the puller's dequeue / run pair
+    beh2, r2 = vlib.tlc_generate("Gen_QueryLifecycle", "Gen_QueryLifecycle2.cfg", timeout=600)
+    chk.add_tlc("Gen_QueryLifecycle2", r2, "schedule generation: two queries, MAXRUN=1")
+    sch2 = sorted(set(tuple(x.replace(":ERROR", ":COMPLETE") for x in b["steps"]) for b in beh2))
+    # three queries: one can hold the slot while a second waits and a third is submitted inside the puller's dequeue -> run gap;
+    # one representative per permutation of the query names (the model is symmetric in Q)
+    beh3, r3 = vlib.tlc_generate("Gen_QueryLifecycle", "Gen_QueryLifecycle3.cfg", timeout=900)
+    chk.add_tlc("Gen_QueryLifecycle3", r3, "schedule generation: three queries, MAXRUN=1")
+    sch3 = sorted(set(tuple(x.replace(":ERROR", ":COMPLETE") for x in b["steps"]) for b in beh3))
+    sch3 = [x for x in sch3 if [y for y in x if y.startswith("enq")] == ["enq:q1", "enq:q2", "enq:q3"]]
+    sch2 = sch2 + sch3
+    res2 = vlib.pmap(lambda s: _force2(binary, s), sch2, workers=8)
+    full2 = 0
+    for s, res in zip(sch2, res2):
+        if isinstance(res, vlib.DriverDead):
+            if res.kind == "hang":
+                raise vlib.Infra("forced schedule did not answer: %s" % res)
+            chk.violation("C17:life:process-died", "engine died under forced schedule %s: %s" % (list(s), res), {"steps": list(s)})
+            continue
+        full = res["forced"] == res["of"]
+        full2 += full
+        chk.replayed(1)
+        chk.count(("sched2", s), nontrivial=full)
+        names = [e["ev"] for e in res["events"]]
+        rep = {"steps": list(s), "forced": res["forced"], "infeasible": res["infeasible"], "outcomes": res["outcomes"], "events": names}
+        for e in res["events"]:
+            if e["ev"] == "q.run" and e["kv"].get("nrun", 0) > e["kv"].get("max", 1 << 30):
+                chk.violation("C17:admission:exceeded", "forced schedule %s: %d queries in the running table with MAX_RUNNING_QUERIES=%d" % (
+                    list(s), e["kv"]["nrun"], e["kv"]["max"]), rep)
+                break
+        if any(o == "stuck" for o in res["outcomes"].values()) and full:
+            chk.violation("C17:life:no-answer", "forced schedule %s: a query never answered: %s" % (list(s), res["outcomes"]), rep)
+        if res["running_left"] or res["waiting_left"]:
+            chk.violation("C17:cleanup:tables", "forced schedule %s left running=%d waiting=%d" % (list(s), res["running_left"], res["waiting_left"]), rep)
+        runs_for_trace.append(res)
+    chk.cov["forced_schedules"]["multi_query_schedules"] = len(sch2)
+    chk.cov["forced_schedules"]["multi_query_fully_forced"] = full2
     # trace validation of the forced runs
     import c17
     res, trace = c17.validate(chk, runs_for_trace, 1, "forced")
@@ -91,4 +135,5 @@ def run(chk, binary):
         chk.violation("C17:trace-invariant:" + inv[0], "invariant %s violated on a forced execution" % inv[0],
                       {"trace_tail": trace[-40:], "tlc": res.out[-2000:]})
     elif res.rc != 0:
-        raise vlib.Infra("SPEC-DRIFT: forced-run trace rejected by Trace_QueryLifecycle near event %s\n%s" % (res.depth, res.out[-1500:]))
+        chk.drift.append("SPEC-DRIFT: forced-run trace rejected by Trace_QueryLifecycle near event %s: %s" % (
+            res.depth, str(trace[max(0, res.depth - 1):res.depth + 1])[:400]))
